@@ -2,6 +2,8 @@ mod compression;
 mod vectored_write_polyfill;
 
 use compression::CompressionCodecState;
+#[cfg(ten0_serde_avro_fast_verif)]
+pub use compression::verif_h3;
 
 use crate::{
 	object_container_file_encoding::{Metadata, METADATA_SCHEMA},
